@@ -94,3 +94,92 @@ pub fn run_unify(args: &[Sexp]) -> String {
         }
     }
 }
+
+// ---------------------------------------------------------------- LTerm API (C21)
+fn lenv(vars: &[&'static str]) -> (Env, Vec<T>) {
+    let mut env = Env::new();
+    let mut vs = vec![];
+    for n in vars {
+        let v: T = LTerm::var(n);
+        vs.push(v.clone());
+        env = env.bind(n, v);
+    }
+    (env, vs)
+}
+
+fn hash_of(t: &T) -> u64 {
+    use std::hash::{Hash, Hasher};
+    let mut h = std::collections::hash_map::DefaultHasher::new();
+    t.hash(&mut h);
+    h.finish()
+}
+
+fn opt(t: Option<&T>) -> String {
+    match t {
+        Some(x) => named(x),
+        None => "none".to_string(),
+    }
+}
+
+// (lterm OP ARG...) ; variables x0 x1 x2 are fixed per case line
+pub fn run_lterm(args: &[Sexp]) -> String {
+    let (env, _vs) = lenv(&["x0", "x1", "x2"]);
+    let op = args[0].atom();
+    let t = |i: usize| build_term(&env, &args[i]);
+    let ts = |i: usize| -> Vec<T> { args[i].list().iter().map(|x| build_term(&env, x)).collect() };
+    match op {
+        "eq" => {
+            let (a, b) = (t(1), t(2));
+            let e = a == b;
+            let sym = b == a;
+            let refl = a == a.clone();
+            let hs = hash_of(&a) == hash_of(&b);
+            let mut m = std::collections::HashMap::new();
+            m.insert(a.clone(), 1);
+            let found = m.contains_key(&b);
+            format!("{} sym={} refl={} hash_equal={} map_lookup={}", e, sym, refl, hs, found)
+        }
+        "from_vec" => named(&LTerm::from_vec(ts(1))),
+        "from_array" => named(&LTerm::from_array(ts(1).as_slice())),
+        "collect" => named(&ts(1).into_iter().collect::<T>()),
+        "improper" => named(&LTerm::improper_from_vec(ts(1))),
+        "improper_array" => named(&LTerm::improper_from_array(ts(1).as_slice())),
+        "iter" => format!("[{}]", t(1).iter().map(named).collect::<Vec<String>>().join(" ")),
+        "into_iter" => {
+            let u = t(1);
+            let v: Vec<String> = (&u).into_iter().map(named).collect();
+            format!("[{}]", v.join(" "))
+        }
+        "iter_mut" => {
+            let mut u = t(1);
+            let v: Vec<String> = u.iter_mut().map(|x| named(x)).collect();
+            format!("[{}]", v.join(" "))
+        }
+        "iter_mut_set" => {
+            let mut u = t(1);
+            let w = t(2);
+            for x in u.iter_mut() {
+                *x = w.clone();
+            }
+            named(&u)
+        }
+        "extend" => {
+            let mut u = t(1);
+            u.extend(ts(2));
+            named(&u)
+        }
+        "index" => {
+            let u = t(1);
+            named(&u[args[2].int() as usize])
+        }
+        "head" => opt(t(1).head()),
+        "tail" => opt(t(1).tail()),
+        "is_list" => t(1).is_list().to_string(),
+        "is_empty" => t(1).is_empty().to_string(),
+        "is_improper" => t(1).is_improper().to_string(),
+        "is_non_empty_list" => t(1).is_non_empty_list().to_string(),
+        "contains" => t(1).contains(&t(2)).to_string(),
+        "display" => format!("{}", t(1)),
+        _ => panic!("harness: bad lterm op"),
+    }
+}
